@@ -341,6 +341,29 @@ class Hang(BaseException):
     pass
 
 
+def run_isolated(cmd, timeout):
+    """Runs a scenario in a process (session) of its own and returns (returncode, stdout, stderr, timed_out). The scenario
+    may be killed by a signal and leave descendants behind (a server, a stopped child): they must neither keep the caller
+    waiting on inherited pipes nor survive - output goes to files and the whole session is killed afterwards."""
+    import signal
+    import tempfile
+    with tempfile.TemporaryFile('w+') as fo, tempfile.TemporaryFile('w+') as fe:
+        p = subprocess.Popen(cmd, stdout=fo, stderr=fe, stdin=subprocess.DEVNULL, start_new_session=True)
+        timed_out = False
+        try:
+            p.wait(timeout=timeout)
+        except subprocess.TimeoutExpired:
+            timed_out = True
+        try:
+            os.killpg(p.pid, signal.SIGKILL)
+        except OSError:
+            pass
+        p.wait()
+        fo.seek(0)
+        fe.seek(0)
+        return p.returncode, fo.read(), fe.read(), timed_out
+
+
 def watchdog(fn, timeout, *args, **kwargs):
     """Run fn in a thread. Returns ('ok', value) | ('exc', exception) | ('hang', None).
     On a hang an asynchronous `Hang` exception is raised in the thread so that a
